@@ -1,4 +1,4 @@
-import MaltModel.Proofs.C05Paths
+import MaltModel.Proofs.C05Frame
 /-!
 # C05: every graph the model builds is well-formed
 
